@@ -74,6 +74,12 @@ func checkXGen(c *ctx, xc xgenCase) []string {
 				break
 			}
 		}
+		if xc.Bpk < 0 { // NewBloomFilter: 'A negative bitsPerKey reads as 0'
+			f0 := filter.NewBloomFilter(0)
+			if z, pan := generate(f0, f0.NewGenerator(), keys); pan || string(z) != string(flt) {
+				c.res.Violate(fmt.Sprintf("bits-per-key %d does not read as 0: %d keys give filter %x, bits-per-key 0 gives %x", xc.Bpk, len(keys), flt, z), xc)
+			}
+		}
 		fp := 0
 		for _, k := range others {
 			if f.Contains(flt, k) {
